@@ -278,7 +278,11 @@ func H_helptext() {
 			kd := kidPool[i]
 			d := vWord("kiddesc", wl)
 			hidden := vChoice("hidden", 2) == 1
-			c.Command(kd.names, d, func(cc *Cmd) { cc.Hidden = hidden })
+			c.Command(kd.names, d, func(cc *Cmd) {
+				if hidden {
+					cc.Hidden = true // (never written otherwise: a command is visible unless it says so itself)
+				}
+			})
 			if !hidden {
 				kidLines = append(kidLines, kd.show+" "+d)
 			}
